@@ -279,6 +279,11 @@ fn error_is_accurate<F: RawFloat>(errors: u32, fp: &ExtendedFloat80) -> bool {
         // Round-to-nearest, need to check if we're close to halfway.
         // IE, b10100 | 100000, where `|` signifies the truncation point.
         let halfway = lower_n_halfway(maskbits);
+        if errors >= halfway {
+            // The error interval covers every possible halfway point, and
+            // the unsigned comparisons below would wrap.
+            return false;
+        }
         let cmp1 = halfway.wrapping_sub(errors) < extra;
         let cmp2 = extra < halfway.wrapping_add(errors);
 
